@@ -197,6 +197,38 @@ def confirm(v):
             mdl['n_from_solver'] = mdl['n']
             mdl['n'] = n
             return True, out2 + ' [witness found natively among perfect squares of this task shape]'
+    # still nothing: the defect may need an INEXACT root with a particular digit pattern.  Scan the task shape natively:
+    # every input of this digit length when there are at most 9000 of them, otherwise a spread plus the neighbours of
+    # perfect powers (their roots end in long runs of zeros / nines)
+    nd = t['nd']
+    if nd >= 1:
+        lo_n, hi_n = 10 ** (nd - 1), 10 ** nd - 1
+        if hi_n - lo_n < 9000:
+            scan = list(range(lo_n, hi_n + 1))
+        else:
+            import random as _r
+            rng = _r.Random(nd * 1000003 + t['p'])
+            scan = [rng.randint(lo_n, hi_n) for _ in range(3000)]
+            for base in K.perfect_power_candidates(nd, 2, mdl['n'], limit=200):
+                scan += [base + d for d in (-2, -1, 1, 2) if lo_n <= base + d <= hi_n]
+        scan = [n for n in scan if not in_known_region(n, t['scale'], t['p'])]
+        sgn = 1 if t['sign'] >= 0 else -1
+        if t['entry'] in ('sqrt_with_context', 'ref_sqrt_with_context') and sgn < 0:
+            scan = []
+        outs = H.replay_lines(['sqrt\t%s\t%s\t%d\t%s' % (t['entry'], H.dec_str(sgn * n, t['scale']), t['p'], t['mode']) for n in scan], timeout=600) if scan else []
+        for n, o in zip(scan, outs):
+            bad = o.startswith('PANIC') or o == 'None'
+            if not bad:
+                ri, rs = H.parse_dec(o)
+                ei, es = exact_sqrt_rounded(n, t['scale'], t['p'], t['mode'])
+                if t['entry'] == 'ref_sqrt_copysign' and sgn < 0:
+                    ei = -ei
+                M = max(rs, es)
+                bad = ri * 10 ** (M - rs) != ei * 10 ** (M - es)
+            if bad:
+                mdl['n_from_solver'] = mdl['n']
+                mdl['n'] = n
+                return True, o + ' [witness found by a native scan of this task shape]'
     return ok, out
 
 
